@@ -30,6 +30,22 @@ bool vs_same(const A & a, const C & c)
   }
 }
 
+/// largest deviation of a from the reference copy c, relative to max(1, |c|) (inf when shapes differ or a value is not finite).
+/// Eigen may pick another evaluation order for another argument type (lazy product vs gemv), so last-bit differences are allowed.
+template<typename A, typename C>
+double vs_dev(const A & a, const C & c)
+{
+  const auto e = vs_copy(a);
+  if (e.rows() != c.rows() || e.cols() != c.cols()) return INFINITY;
+  double m = 1, d = 0;
+  for (Eigen::Index i = 0; i < c.size(); ++i) m = std::max(m, std::fabs((double)c.data()[i]));
+  for (Eigen::Index i = 0; i < c.size(); ++i) {
+    const double x = std::fabs((double)e.data()[i] - (double)c.data()[i]);
+    d              = (x == x) ? std::max(d, x) : INFINITY;
+  }
+  return d / m;
+}
+
 #define MC_VS(NAME, E1, E2)                                  \
   {                                                          \
     auto && r1      = (E1);                                  \
@@ -110,6 +126,132 @@ void value_semantics_all(const std::string & pid)
   if constexpr ((WHICH & 16) == 0) {
     value_semantics<Galileid>(pid, "Galileid", WHICH);
     value_semantics<SE_K_3<double, 3>>(pid, "SE_3_3d", WHICH);
+  }
+}
+
+// ------------------------------------------------------------------ argument storage
+// "For every tangent vector a / point v / algebra matrix A": the result cannot depend on how the caller stores the argument.
+// Every function is called with the same values held as (1) an unevaluated expression, (2) a segment / block of a larger
+// garbage-filled object, (3) a strided Map, (4) the transpose of a row vector / a row-major matrix, and must return
+// what it returns for the plain column-major object (up to 8 ulp: Eigen may order a product differently for an expression).
+#define MC_AS(NAME, EXPR_PLAIN, ...)                                                                   \
+  {                                                                                                    \
+    const auto ref_ = vs_copy(EXPR_PLAIN);                                                             \
+    double dev_     = 0;                                                                               \
+    auto chk_       = [&](auto && r) { dev_ = std::max(dev_, vs_dev(r, ref_)); };                      \
+    __VA_ARGS__;                                                                                       \
+    c.judge(NAME " does not depend on the storage of its argument", dev_, 8 * (double)std::numeric_limits<S>::epsilon()); \
+  }
+
+/// size of the points a group acts on through operator* (0: no action)
+template<typename G>
+constexpr int act_dim()
+{
+  using S = typename G::Scalar;
+  if constexpr (std::is_same_v<G, smooth::SO2<S>> || std::is_same_v<G, smooth::SE2<S>> || std::is_same_v<G, smooth::C1<S>>) return 2;
+  if constexpr (std::is_same_v<G, smooth::SO3<S>> || std::is_same_v<G, smooth::SE3<S>>) return 3;
+  if constexpr (std::is_same_v<G, smooth::Galilei<S>>) return 4;
+  return 0;
+}
+
+template<typename G>
+void argument_storage(const std::string & pid, const std::string & tn, int which)
+{
+  using S = typename G::Scalar;
+  using R = Ref<G>;
+  constexpr int D = R::Dof, Dim = R::Dim;
+  using Tan_ = Eigen::Matrix<S, D, 1>;
+  AlphaOpts o = AlphaOpts::reduced();
+  o.thetas    = {0, 1.0001e-4, 0.3, 2.5};
+  o.tmags     = {0, 1};
+  auto Ts = tangents<R, S>(o);
+  auto Es = elements<R, S>(o);
+  mc::explore(pid + "/argument-storage/" + tn, Ts.size(), [&](mc::Case & c) {
+    const Tan_ a = make<G>(Ts[c.idx]);
+    const G g    = make<G>(Es[(c.idx * 7 + 3) % Es.size()]);
+    c.desc       = [&] { return "a=" + vstr(a) + " g=" + vstr(g.coeffs()); };
+    // the same values in other storage
+    Eigen::Matrix<S, D + 3, 1> big;
+    big.setConstant(S(977));
+    big.template segment<D>(2) = a;
+    S buf[2 * D + 2];
+    for (auto & x : buf) x = S(-613);
+    for (int i = 0; i < D; ++i) buf[2 * i + 1] = a(i);
+    const Eigen::Map<const Tan_, 0, Eigen::InnerStride<2>> strided(buf + 1);
+    const Eigen::Matrix<S, 1, D> row = a.transpose();
+#define MC_AS_TAN(NAME, F) MC_AS(NAME, F(a), chk_(F(a * S(1))); chk_(F(big.template segment<D>(2))); chk_(F(strided)); chk_(F(row.transpose())))
+    if (which & 2) {
+      MC_AS_TAN("exp", G::exp);
+      MC_AS("operator+ (rplus)", g + a, chk_(g + a * S(1)); chk_(g + big.template segment<D>(2)); chk_(g + strided); chk_(g + row.transpose()));
+    }
+    if (which & 4) {
+      MC_AS_TAN("hat", G::hat);
+      MC_AS_TAN("ad", G::ad);
+      {
+        const Eigen::Matrix<S, Dim, Dim> A = G::hat(a);
+        Eigen::Matrix<S, Dim + 2, Dim + 3> bigA;
+        bigA.setConstant(S(41));
+        bigA.template block<Dim, Dim>(1, 2) = A;
+        const Eigen::Matrix<S, Dim, Dim, (Dim > 1 ? Eigen::RowMajor : Eigen::ColMajor)> Ar = A;
+        MC_AS("vee", G::vee(A), chk_(G::vee(A * S(1))); chk_(G::vee(bigA.template block<Dim, Dim>(1, 2))); chk_(G::vee(Ar)));
+      }
+      {
+        const Tan_ b = make<G>(Ts[(c.idx * 5 + 1) % Ts.size()]);
+        Eigen::Matrix<S, D + 3, 1> bigb;
+        bigb.setConstant(S(-59));
+        bigb.template segment<D>(1) = b;
+        const Eigen::Matrix<S, 1, D> rowb = b.transpose();
+        MC_AS("lie_bracket", G::lie_bracket(a, b), chk_(G::lie_bracket(a * S(1), b * S(1))); chk_(G::lie_bracket(big.template segment<D>(2), bigb.template segment<D>(1)));
+              chk_(G::lie_bracket(strided, b)); chk_(G::lie_bracket(row.transpose(), rowb.transpose())));
+      }
+    }
+    if (which & 8) {
+      MC_AS_TAN("dr_exp", G::dr_exp);
+      MC_AS_TAN("dr_expinv", G::dr_expinv);
+      MC_AS_TAN("dl_exp", G::dl_exp);
+      MC_AS_TAN("dl_expinv", G::dl_expinv);
+    }
+    if constexpr (requires { G::d2r_exp(a); } && !std::is_same_v<G, smooth::Galilei<S>> && !requires { G::K; }) {
+      if (which & 16) {
+        MC_AS_TAN("d2r_exp", G::d2r_exp);
+        MC_AS_TAN("d2r_expinv", G::d2r_expinv);
+      }
+    }
+#undef MC_AS_TAN
+    if constexpr (true) {
+      if (which & 1) {
+        // the point a group element acts on
+        if constexpr (act_dim<G>() > 0) {
+          constexpr int A_ = act_dim<G>();
+          Eigen::Matrix<S, A_, 1> v;
+          for (int i = 0; i < A_; ++i) v(i) = S(0.5) * S(i + 1) * (i % 2 ? S(-1) : S(1));
+          Eigen::Matrix<S, A_ + 3, 1> bigv;
+          bigv.setConstant(S(977));
+          bigv.template segment<A_>(1) = v;
+          const Eigen::Matrix<S, 1, A_> rv = v.transpose();
+          MC_AS("action g*v", (g * v).eval(), chk_((g * (v * S(1))).eval()); chk_((g * bigv.template segment<A_>(1)).eval()); chk_((g * rv.transpose()).eval()));
+          (void)rv;
+        }
+      }
+    }
+  });
+}
+
+template<int WHICH>
+void argument_storage_all(const std::string & pid)
+{
+  using namespace smooth;
+  argument_storage<SO2d>(pid, "SO2d", WHICH);
+  argument_storage<SO3d>(pid, "SO3d", WHICH);
+  argument_storage<SO3f>(pid, "SO3f", WHICH);
+  argument_storage<SE2d>(pid, "SE2d", WHICH);
+  argument_storage<SE3d>(pid, "SE3d", WHICH);
+  argument_storage<SE3f>(pid, "SE3f", WHICH);
+  argument_storage<C1d>(pid, "C1d", WHICH);
+  argument_storage<Bundle<SO3d, Eigen::Vector3d, SE2d>>(pid, "Bundle<SO3,T3,SE2>d", WHICH);
+  if constexpr ((WHICH & 16) == 0) {
+    argument_storage<Galileid>(pid, "Galileid", WHICH);
+    argument_storage<SE_K_3<double, 3>>(pid, "SE_3_3d", WHICH);
   }
 }
 }  // namespace mcb
